@@ -194,23 +194,41 @@ func runC11(l *core.Ledger) {
 	// clevel family: phis connected to clevel
 	fam := map[ssa.Value]bool{}
 	if clevel != nil {
-		var grow func(v ssa.Value)
-		grow = func(v ssa.Value) {
+		// the phis that make up the loop-carried variable: those that both are fed by the
+		// running level and feed it again. A phi that merely uses the running level further
+		// down (max of the function's level and the running level, say) is not part of it.
+		fwd, bwd := map[ssa.Value]bool{}, map[ssa.Value]bool{}
+		var down, up func(v ssa.Value)
+		down = func(v ssa.Value) {
 			ph, ok := v.(*ssa.Phi)
-			if !ok || fam[ph] {
+			if !ok || fwd[ph] {
 				return
 			}
-			fam[ph] = true
-			for _, e := range ph.Edges {
-				grow(e)
-			}
+			fwd[ph] = true
 			for _, ref := range *ph.Referrers() {
 				if p2, ok := ref.(*ssa.Phi); ok {
-					grow(p2)
+					down(p2)
 				}
 			}
 		}
-		grow(clevel)
+		up = func(v ssa.Value) {
+			ph, ok := v.(*ssa.Phi)
+			if !ok || bwd[ph] {
+				return
+			}
+			bwd[ph] = true
+			for _, e := range ph.Edges {
+				up(e)
+			}
+		}
+		down(clevel)
+		up(clevel)
+		for v := range fwd {
+			if bwd[v] {
+				fam[v] = true
+			}
+		}
+		fam[clevel] = true
 	}
 	isLevelFamily := func(v ssa.Value) bool { return fam[v] }
 
@@ -271,8 +289,78 @@ func runC11(l *core.Ledger) {
 			} else {
 				l.OK("C11-K3", k, s.c.Pos(), "publishes result#0 of the quorum function")
 			}
-			if lvl != qfLevel {
+			if !s.final && lvl != qfLevel {
 				l.Bad("C11-K4", k+"/level", s.c.Pos(), "the level published is not the level the quorum function just reported")
+			}
+			if s.final {
+				// the completing publication must not take the level down: the function's level
+				// only where it is known not to be below the running level, else the running level
+				notLower := func(e sx.Edge) bool {
+					ok := false
+					sx.AllInstrs(rl.fn, func(_ sx.Node, in ssa.Instruction) {
+						ifi, isIf := in.(*ssa.If)
+						if !isIf {
+							return
+						}
+						x, op, y, cmp := sx.Comparison(ifi.Cond, qfLevel)
+						if !cmp || x != qfLevel || !isLevelFamily(y) {
+							return
+						}
+						t, f := sx.CondEdges(ifi)
+						var good sx.Edge
+						switch op {
+						case token.GEQ, token.GTR:
+							good = t
+						case token.LSS, token.LEQ:
+							good = f
+						default:
+							return
+						}
+						if good == e || sx.EdgeDominates(rl.fn, good, sx.Node{B: e.From, I: len(e.From.Instrs) - 1}) {
+							ok = true
+						}
+					})
+					return ok
+				}
+				var levelOK func(v ssa.Value, at sx.Edge, depth int) bool
+				levelOK = func(v ssa.Value, at sx.Edge, depth int) bool {
+					if depth > 4 {
+						return false
+					}
+					if isLevelFamily(v) {
+						return true
+					}
+					if v == qfLevel {
+						return at.From != nil && notLower(at)
+					}
+					if c, isCall := v.(*ssa.Call); isCall {
+						if b, isB := c.Call.Value.(*ssa.Builtin); isB && b.Name() == "max" {
+							hasRunning := false
+							for _, a := range c.Call.Args {
+								if isLevelFamily(a) {
+									hasRunning = true
+								} else if a != qfLevel {
+									return false
+								}
+							}
+							return hasRunning
+						}
+					}
+					if ph, isPhi := v.(*ssa.Phi); isPhi {
+						for i, e := range ph.Edges {
+							if !levelOK(e, sx.Edge{From: ph.Block().Preds[i], To: ph.Block()}, depth+1) {
+								return false
+							}
+						}
+						return true
+					}
+					return false
+				}
+				var into sx.Edge
+				if len(node.B.Preds) == 1 {
+					into = sx.Edge{From: node.B.Preds[0], To: node.B}
+				}
+				l.Check(levelOK(lvl, into, 0), "C11-K4", k+"/final-level", s.c.Pos(), "the completing publication does not lower the level", "the publication that completes the call passes the level the quorum function reported with 'done' as it is: when that level is lower than one published before (a level function that is not monotone), Get shows the level going down at completion")
 			}
 			if s.final {
 				l.Check(edgesDominate(rl.fn, doneEdges, node), "C11-K5", k+"/final-under-done", s.c.Pos(), "final publication under the done verdict", "a final publication with nil error is reachable without the quorum function reporting done")
